@@ -16,14 +16,14 @@ Lemma bc_ready_closed n : beval (env_of [("len(self._buffer)"%string, n)]) (bc_r
 Proof. unfold beval. cbn. destruct (n >? 1); reflexivity. Qed.
 Lemma bc_crc_lo_closed s e : eval (env_se s e) (bc_crc_lo bin) = e - 2. Proof. reflexivity. Qed.
 Lemma bc_crc_hi_closed s e : eval (env_se s e) (bc_crc_hi bin) = e. Proof. reflexivity. Qed.
-Lemma bc_data_lo_closed s e : eval (env_se s e) (bc_data_lo bin) = s + 1. Proof. reflexivity. Qed.
+Lemma bc_data_lo_closed s e : eval (env_se s e) (bc_data_lo bin) = 1. Proof. reflexivity. Qed.
 Lemma bc_data_hi_closed s e : eval (env_se s e) (bc_data_hi bin) = e - 2. Proof. reflexivity. Qed.
 Lemma bc_uid_closed : bc_uid_lo bin = 1 /\ bc_uid_hi bin = 2. Proof. split; reflexivity. Qed.
 Lemma bc_get_start_closed : e1 "self._hsize" (bc_hsize bin) (bc_get_start bin) = 2. Proof. reflexivity. Qed.
 Lemma bc_get_end_closed l : e1 "self._header['len']" l (bc_get_end bin) = l - 2. Proof. reflexivity. Qed.
 Lemma bc_get_cond_closed e : beval (env_of [("end"%string, e)]) (bc_get_cond bin) = (e >? 0).
 Proof. unfold beval. cbn. destruct (e >? 0); reflexivity. Qed.
-Lemma bc_adv_closed l : e1 "self._header['len']" l (bc_adv bin) = l + 2. Proof. reflexivity. Qed.
+Lemma bc_adv_closed l : e1 "self._header['len']" l (bc_adv bin) = l + 1. Proof. reflexivity. Qed.
 Lemma bin_delims : bin_start = 123%N /\ bin_end = 125%N. Proof. split; reflexivity. Qed.
 Lemma bc_fmts : bc_hdr_fmt bin = ">BB"%string /\ bc_crc_fmt bin = ">H"%string. Proof. split; reflexivity. Qed.
 Lemma bc_repeat_closed : bc_repeat bin = [125; 123]. Proof. reflexivity. Qed.
@@ -152,7 +152,18 @@ Proof.
   destruct (cf_dec cfg _); try (cbn; discriminate).
   apply IH. pose proof (bin_check_len _ _ _ C). pose proof (bin_check_true_len _ _ C).
   unfold bin_advance. cbn [b_buf]. rewrite bc_adv_closed.
-  pose proof (pyslice_from_len (b_buf st1) (b_len (b_hdr st1) + 2) ltac:(lia)). unfold zlen in *. lia.
+  pose proof (pyslice_from_len (b_buf st1) (b_len (b_hdr st1) + 1) ltac:(lia)) as Hp.
+  assert (Hn : (1 <= length (b_buf st1))%nat).
+  { destruct (b_buf st1) eqn:E1; [|cbn; lia]. exfalso.
+    unfold bin_check in C. destruct (find_byte bin_start (b_buf st) =? -1); [discriminate C|].
+    set (buf := if find_byte bin_start (b_buf st) >? 0 then _ else _) in C.
+    destruct (negb (find_byte bin_end buf =? -1)) eqn:En; [|discriminate C].
+    assert (Eb : b_buf st1 = buf).
+    { destruct (unpack_s ">B" _) as [[|u [|? ?]]|]; try discriminate C.
+      destruct (unpack_s ">H" _) as [[|c [|? ?]]|]; try discriminate C.
+      destruct (py_check_crc _ _) as [[|]|]; inversion C; reflexivity. }
+    rewrite E1 in Eb. rewrite <- Eb in En. cbn in En. discriminate En. }
+  unfold zlen in *. lia.
 Qed.
 
 (* processIncomingPacket always terminates within the fuel it is given *)
@@ -196,85 +207,131 @@ Record valid_bframe (cfg : fcfg) (u : N) (pdu : bytes) : Prop := {
   vb_nodelim : no_delim (with_crc (u :: pdu)) = true
 }.
 
-(* one call whose buffer is exactly one delimiter-free frame: delivered, receiver back to its
-   initial state — whatever the header held *)
-Lemma bin_recv_whole cfg st chunk u pdu : valid_bframe cfg u pdu ->
-  b_buf st ++ chunk = spec_adu_binary u pdu ->
-  bin_recv cfg st chunk = (bin_init, [(pdu, zb u)], FOk).
+(* ITERATION: the buffer holds junk without '{' (possibly none), then a delimiter-free valid frame,
+   then anything: one iteration of the loop delivers the frame and continues exactly behind its '}'
+   (the bytes in front of '{' do not cost the frame; advanceFrame drops exactly the frame) *)
+Lemma bin_loop_frame cfg k h j u pdu rest acc : valid_bframe cfg u pdu -> ~ In 123%N j ->
+  bin_loop (S k) cfg {| b_buf := j ++ spec_adu_binary u pdu ++ rest; b_hdr := h |} acc =
+  bin_loop k cfg {| b_buf := rest; b_hdr := bin_hdr0 |} (acc ++ [(pdu, zb u)]).
 Proof.
-  intros [Hw Hp Hd Hu Hn] Hbuf.
+  intros [Hw Hp Hd Hu Hn] Hj.
   destruct (spec_adu_rtu_shape u pdu Hw) as (lo & hi & Esp & Hlo & Hhi & Hcrc).
   unfold spec_adu_rtu in Esp.
-  assert (Ebuf : b_buf st ++ chunk = [123%N] ++ (u :: pdu) ++ [lo; hi] ++ [125%N]).
-  { rewrite Hbuf. unfold spec_adu_binary. rewrite escape_no_delim by exact Hn. rewrite Esp.
+  destruct pdu as [|fc data]; [congruence|].
+  set (buf1 := [123%N] ++ (u :: fc :: data) ++ [lo; hi] ++ ([125%N] ++ rest)).
+  assert (Ebuf : j ++ spec_adu_binary u (fc :: data) ++ rest = j ++ buf1).
+  { unfold spec_adu_binary. rewrite escape_no_delim by exact Hn. rewrite Esp. unfold buf1.
     rewrite <- !app_assoc. reflexivity. }
   rewrite Esp in Hn. destruct (no_delim_notin _ Hn) as [Hn123 Hn125].
-  set (body := (u :: pdu) ++ [lo; hi]) in *.
-  destruct pdu as [|fc data]; [congruence|].
-  unfold bin_recv. rewrite Ebuf. clear Hbuf Ebuf.
-  set (buf := [123%N] ++ (u :: fc :: data) ++ [lo; hi] ++ [125%N]).
-  assert (Lbuf : zlen buf = zlen data + 6) by (unfold buf, zlen; rewrite !app_length; cbn [length]; lia).
-  pose proof (zlen_nonneg data) as Hd0.
-  cbn [bin_loop]. unfold bin_ready at 1. cbn [b_buf]. rewrite bc_ready_closed.
-  replace (zlen buf >? 1) with true by lia.
+  rewrite Ebuf. clear Ebuf.
+  assert (Lbuf : zlen buf1 = zlen data + 6 + zlen rest).
+  { unfold buf1, zlen. rewrite !app_length. cbn [length]. lia. }
+  pose proof (zlen_nonneg data) as Hd0. pose proof (zlen_nonneg rest) as Hr0. pose proof (zlen_nonneg j) as Hj0.
+  cbn [bin_loop]. unfold bin_ready at 1. cbn [b_buf]. rewrite bc_ready_closed, zlen_app.
+  replace (zlen j + zlen buf1 >? 1) with true by lia.
   (* checkFrame *)
-  assert (C : bin_check {| b_buf := buf; b_hdr := b_hdr st |} =
-              ({| b_buf := buf; b_hdr := {| b_uid := zb u; b_len := zlen data + 5; b_crc := zb lo * 256 + zb hi |} |}, Ok true)).
+  assert (C : bin_check {| b_buf := j ++ buf1; b_hdr := h |} =
+              ({| b_buf := buf1; b_hdr := {| b_uid := zb u; b_len := zlen data + 5; b_crc := zb lo * 256 + zb hi |} |}, Ok true)).
   { unfold bin_check. cbn [b_buf b_hdr]. destruct bin_delims as [-> ->].
-    assert (F0 : find_byte 123 buf = 0) by (unfold buf; cbn [app find_byte]; rewrite N.eqb_refl; reflexivity).
-    rewrite F0. cbn [Z.eqb Z.gtb Z.compare].
-    assert (F1 : find_byte 125 buf = zlen data + 5).
-    { unfold buf. rewrite !app_assoc. rewrite find_byte_hit.
+    assert (F0 : find_byte 123 (j ++ buf1) = zlen j) by (unfold buf1; cbn [app]; apply find_byte_hit; exact Hj).
+    rewrite F0. replace (zlen j =? -1) with false by lia.
+    assert (Eb1 : (if zlen j >? 0 then pyslice (j ++ buf1) (Some (zlen j)) None else j ++ buf1) = buf1).
+    { destruct j as [|x j']; [reflexivity|].
+      replace (zlen (x :: j') >? 0) with true by (unfold zlen; cbn [length]; lia). apply pyslice_suffix. reflexivity. }
+    rewrite Eb1.
+    assert (F1 : find_byte 125 buf1 = zlen data + 5).
+    { unfold buf1. rewrite (app_assoc (u :: fc :: data) [lo; hi]). rewrite (app_assoc [123%N]).
+      change ([125%N] ++ rest) with (125%N :: rest). rewrite find_byte_hit.
       - unfold zlen. rewrite !app_length. cbn [length]. lia.
-      - rewrite <- app_assoc. fold body. intros [E|Hin]; [discriminate|]. exact (Hn125 Hin). }
+      - intros Hin. apply in_app_or in Hin. destruct Hin as [[E|[]]|Hin]; [discriminate E|exact (Hn125 Hin)]. }
     rewrite F1. replace (zlen data + 5 =? -1) with false by lia. cbn [negb].
     destruct bc_uid_closed as [-> ->].
     rewrite bc_crc_lo_closed, bc_crc_hi_closed, bc_data_lo_closed, bc_data_hi_closed.
-    replace (pyslice buf (Some 1) (Some 2)) with [u].
-    2: { symmetry. unfold buf. change ([123%N] ++ (u :: fc :: data) ++ [lo; hi] ++ [125%N])
-           with ([123%N] ++ [u] ++ ((fc :: data) ++ [lo; hi] ++ [125%N])). apply pyslice_mid; reflexivity. }
+    replace (pyslice buf1 (Some 1) (Some 2)) with [u].
+    2: { symmetry. unfold buf1. change ([123%N] ++ (u :: fc :: data) ++ [lo; hi] ++ [125%N] ++ rest)
+           with ([123%N] ++ [u] ++ ((fc :: data) ++ [lo; hi] ++ [125%N] ++ rest)). apply pyslice_mid; reflexivity. }
     rewrite unpack_B.
-    replace (pyslice buf (Some (zlen data + 5 - 2)) (Some (zlen data + 5))) with [lo; hi].
-    2: { symmetry. unfold buf. rewrite app_assoc. apply pyslice_mid; unfold zlen; rewrite ?app_length; cbn [length]; lia. }
+    replace (pyslice buf1 (Some (zlen data + 5 - 2)) (Some (zlen data + 5))) with [lo; hi].
+    2: { symmetry. unfold buf1. rewrite app_assoc. apply pyslice_mid; unfold zlen; rewrite ?app_length; cbn [length]; lia. }
     rewrite unpack_H.
-    replace (pyslice buf (Some (0 + 1)) (Some (zlen data + 5 - 2))) with (u :: fc :: data).
-    2: { symmetry. unfold buf. apply pyslice_mid; unfold zlen; cbn [length]; lia. }
+    replace (pyslice buf1 (Some 1) (Some (zlen data + 5 - 2))) with (u :: fc :: data).
+    2: { symmetry. unfold buf1. apply pyslice_mid; unfold zlen; cbn [length]; lia. }
     rewrite py_check_crc_spec by exact Hw.
     rewrite swap16_bytes by (apply crc16_lt; exact Hw). rewrite Hcrc.
     destruct (crc_split lo hi Hlo Hhi) as [-> ->]. unfold zb.
     replace (Z.of_N (256 * lo + hi) =? Z.of_N lo * 256 + Z.of_N hi) with true by lia. reflexivity. }
   rewrite C. cbn [b_hdr b_uid]. rewrite Hu.
   (* getFrame / decode / advanceFrame *)
-  assert (G : bin_get_frame {| b_buf := buf; b_hdr := {| b_uid := zb u; b_len := zlen data + 5; b_crc := zb lo * 256 + zb hi |} |} = fc :: data).
+  assert (G : bin_get_frame {| b_buf := buf1; b_hdr := {| b_uid := zb u; b_len := zlen data + 5; b_crc := zb lo * 256 + zb hi |} |} = fc :: data).
   { unfold bin_get_frame. cbn [b_buf b_hdr b_len]. rewrite bc_get_start_closed, bc_get_end_closed, bc_get_cond_closed.
     replace (zlen data + 5 - 2 >? 0) with true by lia.
-    unfold buf. change ([123%N] ++ (u :: fc :: data) ++ [lo; hi] ++ [125%N])
-      with ([123%N; u] ++ (fc :: data) ++ ([lo; hi] ++ [125%N])). apply pyslice_mid; unfold zlen; cbn [length]; lia. }
+    unfold buf1. change ([123%N] ++ (u :: fc :: data) ++ [lo; hi] ++ [125%N] ++ rest)
+      with ([123%N; u] ++ (fc :: data) ++ ([lo; hi] ++ [125%N] ++ rest)). apply pyslice_mid; unfold zlen; cbn [length]; lia. }
   rewrite G, Hd.
-  assert (A : bin_advance {| b_buf := buf; b_hdr := {| b_uid := zb u; b_len := zlen data + 5; b_crc := zb lo * 256 + zb hi |} |} = bin_init).
-  { unfold bin_advance, bin_init. cbn [b_buf b_hdr b_len]. rewrite bc_adv_closed. f_equal.
-    assert (L0 : Z.of_nat (length (pyslice buf (Some (zlen data + 5 + 2)) None)) = 0)
-      by (rewrite pyslice_from_len by lia; lia).
-    destruct (pyslice buf (Some (zlen data + 5 + 2)) None); [reflexivity|cbn [length] in L0; lia]. }
-  rewrite A. cbn [b_uid app].
-  (* second iteration: buffer empty *)
-  destruct (length buf) eqn:Lb; [unfold zlen in Lbuf; lia|].
-  cbn [bin_loop]. unfold bin_ready. rewrite bc_ready_closed. reflexivity.
+  assert (A : bin_advance {| b_buf := buf1; b_hdr := {| b_uid := zb u; b_len := zlen data + 5; b_crc := zb lo * 256 + zb hi |} |}
+              = {| b_buf := rest; b_hdr := bin_hdr0 |}).
+  { unfold bin_advance. cbn [b_buf b_hdr b_len]. rewrite bc_adv_closed. f_equal.
+    unfold buf1. rewrite !app_assoc. apply pyslice_suffix. unfold zlen. rewrite !app_length. cbn [length]. lia. }
+  rewrite A. cbn [b_uid]. reflexivity.
 Qed.
 
 (* a call that leaves at most one byte buffered does nothing *)
+Lemma bin_loop_short cfg k q h acc : (length q <= 1)%nat ->
+  bin_loop (S k) cfg {| b_buf := q; b_hdr := h |} acc = ({| b_buf := q; b_hdr := h |}, acc, FOk).
+Proof.
+  intros H. cbn [bin_loop]. unfold bin_ready. cbn [b_buf]. rewrite bc_ready_closed.
+  replace (zlen q >? 1) with false by (unfold zlen; lia). reflexivity.
+Qed.
+
 Lemma bin_recv_short cfg st chunk : (length (b_buf st ++ chunk) <= 1)%nat ->
   bin_recv cfg st chunk = ({| b_buf := b_buf st ++ chunk; b_hdr := b_hdr st |}, [], FOk).
+Proof. intros H. unfold bin_recv. apply bin_loop_short. exact H. Qed.
+
+Definition bstream (fs : list (N * bytes)) : bytes := flat_map (fun f => spec_adu_binary (fst f) (snd f)) fs.
+Definition bmsgs (fs : list (N * bytes)) : list delivered := map (fun f => (snd f, zb (fst f))) fs.
+
+Lemma bstream_len fs : (length fs <= length (bstream fs))%nat.
 Proof.
-  intros H. unfold bin_recv. cbn [bin_loop b_buf]. unfold bin_ready. cbn [b_buf]. rewrite bc_ready_closed.
-  replace (zlen (b_buf st ++ chunk) >? 1) with false by (unfold zlen; lia). reflexivity.
+  induction fs as [|f t IH]; [cbn; lia|]. unfold bstream. cbn [flat_map length]. fold (bstream t).
+  rewrite app_length. unfold spec_adu_binary at 1. rewrite app_length. cbn [length]. lia.
+Qed.
+
+(* one call drains EVERY complete frame in the buffer and keeps at most one trailing byte *)
+Lemma bin_loop_drain cfg : forall fs fuel q h acc,
+  Forall (fun f => valid_bframe cfg (fst f) (snd f)) fs -> (length q <= 1)%nat -> (length fs < fuel)%nat ->
+  exists h', bin_loop fuel cfg {| b_buf := bstream fs ++ q; b_hdr := h |} acc
+             = ({| b_buf := q; b_hdr := h' |}, acc ++ bmsgs fs, FOk).
+Proof.
+  induction fs as [|[u pdu] fs IH]; intros fuel q h acc Hall Hq Hf.
+  - destruct fuel as [|k]; [lia|]. cbn [bstream flat_map app bmsgs map]. rewrite app_nil_r.
+    exists h. apply bin_loop_short. exact Hq.
+  - destruct fuel as [|k]; [cbn in Hf; lia|]. inversion Hall as [|? ? V Hfs]. subst. cbn [fst snd] in V.
+    unfold bstream. cbn [flat_map fst snd]. fold (bstream fs). rewrite <- app_assoc.
+    change (spec_adu_binary u pdu ++ bstream fs ++ q) with ([] ++ spec_adu_binary u pdu ++ (bstream fs ++ q)).
+    rewrite (bin_loop_frame cfg k h [] u pdu (bstream fs ++ q) acc V (fun F => F)).
+    destruct (IH k q bin_hdr0 (acc ++ [(pdu, zb u)]) Hfs Hq ltac:(cbn [length] in Hf; lia)) as (h' & R).
+    exists h'. rewrite R. unfold bmsgs. cbn [map fst snd]. rewrite <- app_assoc. reflexivity.
+Qed.
+
+(* whole frame, possibly behind junk without '{', to a receiver with an empty buffer *)
+Lemma bin_recv_whole cfg st chunk j u pdu : valid_bframe cfg u pdu -> ~ In 123%N j ->
+  b_buf st ++ chunk = j ++ spec_adu_binary u pdu ->
+  bin_recv cfg st chunk = (bin_init, [(pdu, zb u)], FOk).
+Proof.
+  intros V Hj Hbuf. unfold bin_recv.
+  assert (E : j ++ spec_adu_binary u pdu = j ++ spec_adu_binary u pdu ++ []) by (rewrite app_nil_r; reflexivity).
+  rewrite Hbuf, E. cbn [b_buf].
+  rewrite (bin_loop_frame cfg _ (b_hdr st) j u pdu [] [] V Hj).
+  remember (length (j ++ spec_adu_binary u pdu ++ [])) as n eqn:L. destruct n as [|n].
+  { rewrite !app_length in L. unfold spec_adu_binary in L. rewrite !app_length in L. cbn [length] in L. lia. }
+  rewrite bin_loop_short by (cbn; lia). reflexivity.
 Qed.
 
 Theorem bin_whole_frame cfg u pdu : valid_bframe cfg u pdu ->
   bin_recv cfg bin_init (spec_adu_binary u pdu) = (bin_init, [(pdu, zb u)], FOk).
-Proof. intros V. apply bin_recv_whole; [exact V | reflexivity]. Qed.
+Proof. intros V. apply (bin_recv_whole cfg bin_init _ [] u pdu V (fun F => F)). reflexivity. Qed.
 
-(* ------------------------------------------------------------------ C06 partial: frame-aligned reads *)
+(* ------------------------------------------------------------------ C06 partial: reads that end on a frame boundary or one byte behind it *)
 Fixpoint bin_feed_dels (cfg : fcfg) (st : bstate) (chunks : list bytes) : list delivered * list fexit :=
   match chunks with
   | [] => ([], [])
@@ -282,41 +339,33 @@ Fixpoint bin_feed_dels (cfg : fcfg) (st : bstate) (chunks : list bytes) : list d
               let '(ds', xs) := bin_feed_dels cfg st1 t in (ds ++ ds', x :: xs)
   end.
 
-(* every read either leaves at most one byte of the next frame buffered or completes exactly
-   that frame (no byte of a following frame in the same read) *)
+(* every read completes any number of whole frames (none, one, several) and leaves at most one byte
+   of the next frame buffered *)
 Fixpoint bopr (b : bytes) (frames : list (N * bytes)) (chunks : list bytes) : Prop :=
   match chunks with
   | [] => frames = [] /\ b = []
-  | c :: cs =>
-      match frames with
-      | [] => c = [] /\ b = [] /\ bopr [] [] cs
-      | (u, pdu) :: fs =>
-          ((length (b ++ c) <= 1)%nat /\ bopr (b ++ c) frames cs)
-          \/ (b ++ c = spec_adu_binary u pdu /\ bopr [] fs cs)
-      end
+  | c :: cs => exists fs rest q, frames = fs ++ rest /\ b ++ c = bstream fs ++ q /\ (length q <= 1)%nat /\ bopr q rest cs
   end.
 
 Theorem bin_chunked cfg : forall chunks b frames st,
   b_buf st = b ->
   Forall (fun f => valid_bframe cfg (fst f) (snd f)) frames ->
   bopr b frames chunks ->
-  bin_feed_dels cfg st chunks = (map (fun f => (snd f, zb (fst f))) frames, map (fun _ => FOk) chunks).
+  bin_feed_dels cfg st chunks = (bmsgs frames, map (fun _ => FOk) chunks).
 Proof.
   induction chunks as [|c cs IH]; intros b frames st Hb Hall Ho.
   - cbn in Ho. destruct Ho as [-> _]. reflexivity.
-  - cbn [bopr] in Ho. destruct frames as [|[u pdu] fs].
-    + destruct Ho as (-> & -> & Ho). cbn [bin_feed_dels map].
-      rewrite bin_recv_short by (rewrite Hb; cbn; lia).
-      rewrite (IH [] [] _); [reflexivity | cbn [b_buf]; rewrite Hb; reflexivity | constructor | exact Ho].
-    + inversion Hall as [|? ? V Hfs]. subst. cbn [fst snd] in V.
-      destruct Ho as [(Hl & Ho) | (Eb & Ho)]; cbn [bin_feed_dels].
-      * rewrite bin_recv_short by exact Hl.
-        rewrite (IH (b_buf st ++ c) ((u, pdu) :: fs) _); [reflexivity | reflexivity | exact Hall | exact Ho].
-      * rewrite (bin_recv_whole cfg st c u pdu V Eb).
-        rewrite (IH [] fs bin_init); [reflexivity | reflexivity | exact Hfs | exact Ho].
+  - cbn [bopr] in Ho. destruct Ho as (fs & rest & q & -> & Eb & Hq & Ho).
+    apply Forall_app in Hall. destruct Hall as [H1 H2].
+    cbn [bin_feed_dels]. unfold bin_recv. rewrite Hb, Eb.
+    destruct (bin_loop_drain cfg fs (S (length (b_buf {| b_buf := bstream fs ++ q; b_hdr := b_hdr st |}))) q (b_hdr st) [] H1 Hq) as (h' & R).
+    { cbn [b_buf]. pose proof (bstream_len fs). rewrite app_length. lia. }
+    cbn [b_buf] in R |- *. rewrite R. cbn [app].
+    rewrite (IH q rest {| b_buf := q; b_hdr := h' |} eq_refl H2 Ho).
+    unfold bmsgs. rewrite map_app. reflexivity.
 Qed.
 
-(* ------------------------------------------------------------------ C07: the delivery gate when the buffer starts with '{' *)
+(* ------------------------------------------------------------------ C07: the delivery gate *)
 
 Lemma swap_val_bytes c0 c1 k : (c0 < 256)%N -> (c1 < 256)%N -> (k < 65536)%N ->
   (Z.of_N (swap16 k) =? Z.of_N c0 * 256 + Z.of_N c1) = true -> k = (c0 + 256 * c1)%N.
@@ -389,7 +438,7 @@ Proof.
     assert (S1 : pyslice buf (Some (e - 2)) (Some e) = [c0; c1]).
     { rewrite Ebuf'. apply pyslice_mid; unfold zlen in *; cbn [length]; lia. }
     rewrite S1, unpack_H in UH. inversion UH. subst c. clear UH.
-    assert (S2 : pyslice buf (Some (0 + 1)) (Some (e - 2)) = d).
+    assert (S2 : pyslice buf (Some 1) (Some (e - 2)) = d).
     { rewrite Ebuf'. change ((123%N :: d) ++ [c0; c1] ++ 125%N :: post) with ([123%N] ++ d ++ ([c0; c1] ++ 125%N :: post)).
       apply pyslice_mid; unfold zlen in *; cbn [length]; lia. }
     rewrite S2.
@@ -425,13 +474,49 @@ Proof.
       assert (Hx : (x < 256)%N).
       { rewrite Ebuf in Hw. cbn [app wfb forallb] in Hw. unfold byteb in Hw. lia. }
       assert (Hc' : c = 31488 + Z.of_N x) by lia. clear Hc. subst c.
-      assert (S2 : pyslice buf (Some (0 + 1)) (Some (2 - 2)) = []).
-      { assert (L : Z.of_nat (length (pyslice buf (Some (0 + 1)) (Some (2 - 2)))) <= 0) by (apply pyslice_len_hi; lia).
-        destruct (pyslice buf (Some (0 + 1)) (Some (2 - 2))); [reflexivity|cbn [length] in L; lia]. }
+      assert (S2 : pyslice buf (Some 1) (Some (2 - 2)) = []).
+      { assert (L : Z.of_nat (length (pyslice buf (Some 1) (Some (2 - 2)))) <= 0) by (apply pyslice_len_hi; lia).
+        destruct (pyslice buf (Some 1) (Some (2 - 2))); [reflexivity|cbn [length] in L; lia]. }
       rewrite S2. rewrite py_check_crc_spec by reflexivity.
       assert (K : (Z.of_N (swap16 (crc16_bitwise [])) =? 31488 + Z.of_N x) = false).
       { replace (Z.of_N (swap16 (crc16_bitwise []))) with 65535 by (vm_compute; reflexivity). lia. }
       rewrite K. intros HH. discriminate HH.
+Qed.
+
+(* bytes in front of the first '{' are dropped and play no part in the check *)
+Lemma bin_check_trim j t h : ~ In 123%N j ->
+  bin_check {| b_buf := j ++ 123%N :: t; b_hdr := h |} = bin_check {| b_buf := 123%N :: t; b_hdr := h |}.
+Proof.
+  intros Hj. unfold bin_check. cbn [b_buf b_hdr]. destruct bin_delims as [-> ->].
+  rewrite (find_byte_hit 123%N j t Hj). cbn [find_byte]. rewrite N.eqb_refl. cbn [Z.eqb Z.gtb Z.compare].
+  pose proof (zlen_nonneg j). replace (zlen j =? -1) with false by lia.
+  assert (Eb1 : (if zlen j >? 0 then pyslice (j ++ 123%N :: t) (Some (zlen j)) None else j ++ 123%N :: t) = 123%N :: t).
+  { destruct j as [|x j']; [reflexivity|].
+    replace (zlen (x :: j') >? 0) with true by (unfold zlen; cbn [length]; lia). apply pyslice_suffix. reflexivity. }
+  rewrite Eb1. rewrite ?bc_crc_lo_closed, ?bc_crc_hi_closed, ?bc_data_lo_closed, ?bc_data_hi_closed. reflexivity.
+Qed.
+
+(* checkFrame = True, any buffer: junk without '{', then '{' d c0 c1 '}' rest with no '}' inside and
+   CRC(d) = c0 + 256 c1; the junk has been dropped from the buffer *)
+Lemma bin_check_true st st1 : wfb (b_buf st) = true -> bin_check st = (st1, Ok true) ->
+  exists j d c0 c1 rest,
+    b_buf st = j ++ [123%N] ++ d ++ [c0; c1] ++ [125%N] ++ rest /\ ~ In 125%N (d ++ [c0; c1]) /\
+    crc16_bitwise d = (c0 + 256 * c1)%N /\ b_buf st1 = [123%N] ++ d ++ [c0; c1] ++ [125%N] ++ rest /\
+    b_len (b_hdr st1) = zlen d + 3 /\
+    match d with u :: _ => b_uid (b_hdr st1) = zb u | [] => True end.
+Proof.
+  intros Hw C. destruct st as [buf h]. cbn [b_buf] in *.
+  destruct (find_byte 123%N buf =? -1) eqn:S0.
+  { unfold bin_check in C. cbn [b_buf] in C. destruct bin_delims as [E _]. rewrite E, S0 in C. discriminate C. }
+  pose proof (find_byte_ge 123%N buf).
+  destruct (find_byte_spec 123%N buf _ eq_refl ltac:(lia)) as (j & t & Ebuf & _ & Hj).
+  subst buf. rewrite (bin_check_trim j t h Hj) in C.
+  assert (Hwt : wfb (123%N :: t) = true) by (rewrite wfb_app in Hw; apply andb_prop in Hw; tauto).
+  destruct (bin_check_true_start0 {| b_buf := 123%N :: t; b_hdr := h |} st1 Hwt) as (d & c0 & c1 & rest & E & Hn & Hc & Hb & Hl & Hu);
+    [cbn [b_buf find_byte]; rewrite N.eqb_refl; reflexivity | exact C |].
+  cbn [b_buf] in E, Hb. exists j, d, c0, c1, rest.
+  split; [rewrite E; reflexivity|]. split; [exact Hn|]. split; [exact Hc|]. split; [rewrite Hb, E; reflexivity|].
+  split; assumption.
 Qed.
 
 Lemma bin_loop_prefix cfg : forall fuel st acc st' ds x,
@@ -446,42 +531,68 @@ Proof.
     apply IH in H. destruct H as [t ->]. rewrite <- app_assoc. eexists. reflexivity.
 Qed.
 
-(* GATE (first delivery of a call whose buffer starts with '{'): the delivered (pdu, unit) are
-   exactly the bytes between the braces, their CRC-16 matches, and no '}' lies inside *)
-Theorem bin_gate_first cfg st chunk st' d ds x :
-  wfb (b_buf st ++ chunk) = true -> find_byte 123%N (b_buf st ++ chunk) = 0 ->
-  cf_dec cfg [] <> DMsg ->
-  bin_recv cfg st chunk = (st', d :: ds, x) ->
-  exists u pdu c0 c1 rest,
-    b_buf st ++ chunk = [123%N] ++ (u :: pdu) ++ [c0; c1] ++ [125%N] ++ rest /\
-    d = (pdu, zb u) /\ pdu <> [] /\
-    crc16_bitwise (u :: pdu) = (c0 + 256 * c1)%N /\ ~ In 125%N ((u :: pdu) ++ [c0; c1]).
+(* a delivery is justified: the buffered bytes contain '{' unit PDU crc '}' for it, with the
+   bitwise CRC-16 of unit + PDU (low byte first) and no '}' inside *)
+Definition bin_justified (buf : bytes) (d : delivered) : Prop :=
+  exists pre u c0 c1 rest,
+    buf = pre ++ [123%N] ++ (u :: fst d) ++ [c0; c1] ++ [125%N] ++ rest /\ snd d = zb u /\ fst d <> [] /\
+    crc16_bitwise (u :: fst d) = (c0 + 256 * c1)%N /\ ~ In 125%N ((u :: fst d) ++ [c0; c1]).
+
+Lemma bin_justified_shift pre buf d : bin_justified buf d -> bin_justified (pre ++ buf) d.
+Proof. intros (p & u & c0 & c1 & r & E & H). exists (pre ++ p), u, c0, c1, r. rewrite E, <- app_assoc. split; [reflexivity|exact H]. Qed.
+
+Lemma bin_loop_gate cfg : cf_dec cfg [] <> DMsg -> forall fuel st acc st' ds x,
+  wfb (b_buf st) = true -> bin_loop fuel cfg st acc = (st', ds, x) ->
+  exists new, ds = acc ++ new /\ forall d, In d new -> bin_justified (b_buf st) d.
 Proof.
-  intros Hw F0 Hd0. unfold bin_recv. cbn [bin_loop].
-  set (st0 := {| b_buf := b_buf st ++ chunk; b_hdr := b_hdr st |}).
-  destruct (bin_ready st0); [|intros HH; discriminate HH].
-  destruct (bin_check st0) as [st1 [[|]|e]] eqn:C; try (intros HH; discriminate HH).
-  apply bin_check_true_start0 in C; [|exact Hw|exact F0].
-  destruct C as (dd & c0 & c1 & rest & Ebuf & Hnin & Hcrc & Hb1 & Hl & Hu). cbn [st0 b_buf] in Ebuf, Hb1.
-  destruct (validate_unit cfg _) as [[|]|e]; try (intros HH; discriminate HH).
+  intros Hd0. induction fuel as [|k IH]; intros st acc st' ds x Hw H; cbn [bin_loop] in H.
+  { inversion H. exists []. split; [rewrite app_nil_r; reflexivity|intros ? []]. }
+  assert (Stop : forall s y, (s, acc, y) = (st', ds, x) -> exists new, ds = acc ++ new /\ forall d, In d new -> bin_justified (b_buf st) d).
+  { intros s y E. inversion E. exists []. split; [rewrite app_nil_r; reflexivity|intros ? []]. }
+  destruct (bin_ready st); [|eapply Stop; exact H].
+  destruct (bin_check st) as [st1 [[|]|e]] eqn:C; try (eapply Stop; exact H).
+  apply bin_check_true in C; [|exact Hw].
+  destruct C as (j & dd & c0 & c1 & rest & Ebuf & Hnin & Hcrc & Hb1 & Hl & Hu).
+  destruct (validate_unit cfg _) as [[|]|e]; try (eapply Stop; exact H).
   assert (G : bin_get_frame st1 = match dd with _ :: pdu => pdu | [] => [] end).
-  { unfold bin_get_frame. rewrite bc_get_start_closed, bc_get_end_closed, bc_get_cond_closed, Hl, Hb1, Ebuf.
+  { unfold bin_get_frame. rewrite bc_get_start_closed, bc_get_end_closed, bc_get_cond_closed, Hl, Hb1.
     pose proof (zlen_nonneg dd). replace (zlen dd + 3 - 2 >? 0) with true by lia.
     destruct dd as [|u pdu].
     - apply pyslice_empty. unfold zlen. cbn [length]. lia.
     - change ([123%N] ++ (u :: pdu) ++ [c0; c1] ++ [125%N] ++ rest) with ([123%N; u] ++ pdu ++ ([c0; c1] ++ [125%N] ++ rest)).
       apply pyslice_mid; unfold zlen; cbn [length]; lia. }
-  rewrite G.
+  rewrite G in H.
   destruct dd as [|u pdu].
-  - destruct (cf_dec cfg []) eqn:D; try (intros HH; discriminate HH). congruence.
-  - destruct (cf_dec cfg pdu) eqn:D; try (intros HH; discriminate HH).
-    intros HH. apply bin_loop_prefix in HH. destruct HH as [t HH]. cbn [app] in HH. injection HH as Hd1 Hds.
-    exists u, pdu, c0, c1, rest. split; [exact Ebuf|]. split; [rewrite Hd1, Hu; reflexivity|].
+  { destruct (cf_dec cfg []) eqn:D; try (eapply Stop; exact H). congruence. }
+  destruct (cf_dec cfg pdu) eqn:D; try (eapply Stop; exact H).
+  assert (A : b_buf (bin_advance st1) = rest).
+  { unfold bin_advance. cbn [b_buf]. rewrite bc_adv_closed, Hl, Hb1. rewrite !app_assoc.
+    apply pyslice_suffix. unfold zlen. rewrite !app_length. cbn [length]. lia. }
+  assert (Hwr : wfb rest = true).
+  { rewrite Ebuf in Hw. rewrite !wfb_app in Hw. repeat (apply andb_prop in Hw; destruct Hw as [_ Hw]). exact Hw. }
+  apply IH in H; [|rewrite A; exact Hwr]. destruct H as (new & -> & Hj). rewrite A in Hj.
+  exists ((pdu, b_uid (b_hdr st1)) :: new). split; [rewrite <- app_assoc; reflexivity|].
+  intros d [<-|Hin].
+  - exists j, u, c0, c1, rest. cbn [fst snd]. split; [exact Ebuf|]. split; [exact Hu|].
     split; [intro Ep; rewrite Ep in D; congruence|]. split; assumption.
+  - rewrite Ebuf. rewrite !app_assoc. apply bin_justified_shift. apply Hj. exact Hin.
+Qed.
+
+(* GATE, binary: for EVERY receiver state, chunk and decoder (that rejects the empty PDU, as both
+   real decoders do), every message delivered by a call — the first or a later one of the same read,
+   with or without junk in front of its '{' — is exactly the unit and PDU between a '{' and the next
+   '}', the two bytes before that '}' are their bitwise CRC-16 (low byte first) *)
+Theorem bin_gate cfg st chunk st' ds x :
+  wfb (b_buf st ++ chunk) = true -> cf_dec cfg [] <> DMsg ->
+  bin_recv cfg st chunk = (st', ds, x) ->
+  forall d, In d ds -> bin_justified (b_buf st ++ chunk) d.
+Proof.
+  intros Hw Hd0 R d Hin. unfold bin_recv in R.
+  apply (bin_loop_gate cfg Hd0) in R; [|exact Hw]. destruct R as (new & -> & Hj). exact (Hj d Hin).
 Qed.
 
 (* ... which is the specified frame when the bytes between the braces contain no '{' either *)
-Corollary bin_gate_first_spec u pdu c0 c1 : (c0 < 256)%N -> (c1 < 256)%N ->
+Corollary bin_gate_span_spec u pdu c0 c1 : (c0 < 256)%N -> (c1 < 256)%N ->
   crc16_bitwise (u :: pdu) = (c0 + 256 * c1)%N -> no_delim ((u :: pdu) ++ [c0; c1]) = true ->
   [123%N] ++ (u :: pdu) ++ [c0; c1] ++ [125%N] = spec_adu_binary u pdu.
 Proof.
@@ -490,27 +601,27 @@ Proof.
   rewrite <- !app_assoc. reflexivity.
 Qed.
 
-(* refutation of the unrestricted gate: one noise byte in front, one byte inserted after '{' *)
-Lemma bin_gate_refuted_witness :
-  let cfg := {| cf_dec := fun _ => DMsg; cf_rules := server_decoder; cf_units := [17]; cf_single := false |} in
-  let rx := [0; 123; 17; 3; 43; 14; 1; 0; 9; 183; 125]%N in
-  snd (fst (bin_recv cfg bin_init rx)) = [([3; 43; 14; 1; 0]%N, 17)] /\
-  justified_binary rx [3; 43; 14; 1; 0]%N 17 = false /\
-  is_infix ([123%N] ++ with_crc [17; 3; 43; 14; 1; 0]%N ++ [125%N]) rx = false /\
-  spec_rx_binary [123; 3; 43; 14; 1; 0; 9; 183; 125]%N = Some ([43; 14; 1; 0]%N, 3%N).
-Proof. cbv zeta. repeat split; vm_compute; reflexivity. Qed.
+(* the former refutation witnesses (stale start; advance skipping a byte) on the repaired code *)
+Lemma bin_stale_start_fixed_witness :
+  let cfg := {| cf_dec := fun _ => DMsg; cf_rules := server_decoder; cf_units := [17; 3]; cf_single := false |} in
+  snd (fst (bin_recv cfg bin_init [0; 123; 17; 3; 43; 14; 1; 0; 9; 183; 125]%N)) = [] /\
+  snd (fst (bin_recv cfg bin_init [0; 255; 123; 3; 43; 14; 1; 0; 9; 183; 125]%N)) = [([43; 14; 1; 0]%N, 3)].
+Proof. cbv zeta. split; vm_compute; reflexivity. Qed.
 
-(* valid delimiter-free frames, one per read, from any state with an empty buffer *)
-Theorem bin_one_per_read cfg (frames : list (N * bytes)) : forall st,
+(* valid delimiter-free frames, any number per read, from any state with an empty buffer *)
+Theorem bin_frames_per_read cfg (reads : list (list (N * bytes))) : forall st,
   b_buf st = [] ->
-  Forall (fun f => valid_bframe cfg (fst f) (snd f)) frames ->
-  bin_feed_dels cfg st (map (fun f => spec_adu_binary (fst f) (snd f)) frames) =
-    (map (fun f => (snd f, zb (fst f))) frames, map (fun _ => FOk) frames).
+  Forall (fun f => valid_bframe cfg (fst f) (snd f)) (concat reads) ->
+  bin_feed_dels cfg st (map bstream reads) = (bmsgs (concat reads), map (fun _ => FOk) reads).
 Proof.
-  induction frames as [|[u pdu] t IH]; intros st Hb Hall; [reflexivity|].
-  inversion Hall as [|? ? V Ht]. subst. cbn [map bin_feed_dels fst snd] in *.
-  rewrite (bin_recv_whole cfg st (spec_adu_binary u pdu) u pdu V) by (rewrite Hb; reflexivity).
-  rewrite (IH bin_init); [reflexivity|reflexivity|exact Ht].
+  induction reads as [|fs t IH]; intros st Hb Hall; [reflexivity|].
+  cbn [concat] in Hall. apply Forall_app in Hall. destruct Hall as [H1 H2].
+  cbn [map bin_feed_dels concat]. unfold bin_recv. rewrite Hb. cbn [app b_buf].
+  rewrite <- (app_nil_r (bstream fs)).
+  destruct (bin_loop_drain cfg fs (S (length (bstream fs ++ []))) [] (b_hdr st) [] H1 ltac:(cbn; lia)) as (h' & R).
+  { pose proof (bstream_len fs). rewrite app_length. cbn [length]. lia. }
+  rewrite R. cbn [app]. rewrite (IH {| b_buf := []; b_hdr := h' |} eq_refl H2).
+  unfold bmsgs. rewrite map_app. reflexivity.
 Qed.
 
 Example valid_bframe_example :
@@ -520,9 +631,11 @@ Proof. cbv zeta. constructor; try reflexivity. discriminate. Qed.
 
 Example bopr_example :
   let f := spec_adu_binary 1 [3; 0; 1; 0; 2]%N in
-  bopr [] [(1, [3; 0; 1; 0; 2]); (1, [3; 0; 1; 0; 2])]%N [[]; firstn 1 f; skipn 1 f; f; []].
+  bopr [] [(1, [3; 0; 1; 0; 2]); (1, [3; 0; 1; 0; 2]); (1, [3; 0; 1; 0; 2])]%N [[]; f ++ firstn 1 f; skipn 1 f ++ f; []].
 Proof.
   cbv zeta. cbn [bopr].
-  left. split; [cbn; lia|]. left. split; [cbn; lia|]. right. split; [vm_compute; reflexivity|].
-  right. split; [reflexivity|]. cbn. repeat split; reflexivity.
+  exists [], [(1, [3; 0; 1; 0; 2]); (1, [3; 0; 1; 0; 2]); (1, [3; 0; 1; 0; 2])]%N, []. repeat split; try reflexivity; [cbn; lia|].
+  exists [(1, [3; 0; 1; 0; 2])]%N, [(1, [3; 0; 1; 0; 2]); (1, [3; 0; 1; 0; 2])]%N, [123%N]. split; [reflexivity|]. split; [vm_compute; reflexivity|]. split; [cbn; lia|].
+  exists [(1, [3; 0; 1; 0; 2]); (1, [3; 0; 1; 0; 2])]%N, [], []. split; [reflexivity|]. split; [vm_compute; reflexivity|]. split; [cbn; lia|].
+  exists [], [], []. repeat split; try reflexivity. cbn; lia.
 Qed.
